@@ -82,12 +82,13 @@ EoeList(inn, run) == IF run[1] = 0 THEN NoEoe ELSE [i \in 1..(run[2]-run[1]+1) |
 \* --------------------------------------------------------------- keys and symbolic HPKE
 Suites == {"s1", "s2", "s3"}
 KeyPool(nm) ==
-  CASE nm = "K1"  -> [kid |-> "k1", cid |-> 7, suites |-> {"s1","s2","s3"}, pub |-> "pub",  cfg |-> "c1"]
-    [] nm = "K2"  -> [kid |-> "k2", cid |-> 7, suites |-> {"s1","s2","s3"}, pub |-> "pub",  cfg |-> "c2"]
-    [] nm = "K3"  -> [kid |-> "k3", cid |-> 7, suites |-> {"s1","s3"},      pub |-> "pubB", cfg |-> "c3"]
-    [] nm = "K4"  -> [kid |-> "k4", cid |-> 8, suites |-> {"s1","s2","s3"}, pub |-> "pub",  cfg |-> "c4"]
-    [] nm = "K5"  -> [kid |-> "k5", cid |-> 7, suites |-> {"s2"},           pub |-> "pub",  cfg |-> "c5"]
-    [] nm = "K1b" -> [kid |-> "k1", cid |-> 7, suites |-> {"s1","s2","s3"}, pub |-> "pub",  cfg |-> "c1b"]  \* same key material, other config bytes
+  CASE nm = "K1"  -> [kid |-> "k1", cid |-> 7, suites |-> {"s1","s2","s3"}, pub |-> "pub",  cfg |-> "c1", dec |-> TRUE]
+    [] nm = "K2"  -> [kid |-> "k2", cid |-> 7, suites |-> {"s1","s2","s3"}, pub |-> "pub",  cfg |-> "c2", dec |-> TRUE]
+    [] nm = "K3"  -> [kid |-> "k3", cid |-> 7, suites |-> {"s1","s3"},      pub |-> "pubB", cfg |-> "c3", dec |-> TRUE]
+    [] nm = "K4"  -> [kid |-> "k4", cid |-> 8, suites |-> {"s1","s2","s3"}, pub |-> "pub",  cfg |-> "c4", dec |-> TRUE]
+    [] nm = "K5"  -> [kid |-> "k5", cid |-> 7, suites |-> {"s2"},           pub |-> "pub",  cfg |-> "c5", dec |-> TRUE]
+    [] nm = "KX"  -> [kid |-> "kx", cid |-> 7, suites |-> {"s1","s2","s3"}, pub |-> "pub",  cfg |-> "cx", dec |-> FALSE]  \* a held entry whose config bytes do not decode (unknown version): ignored
+    [] nm = "K1b" -> [kid |-> "k1", cid |-> 7, suites |-> {"s1","s2","s3"}, pub |-> "pub",  cfg |-> "c1b", dec |-> TRUE]  \* same key material, other config bytes
 
 Aad(h) == [h EXCEPT !.ech.ct = ZeroCt]
 
@@ -147,12 +148,13 @@ Apply(op, h) ==
     [] op = "truncCt"     -> [h EXCEPT !.ech.ct.ok = FALSE]
     [] op = "echTrailing" -> [h EXCEPT !.ech.trail = TRUE]                                 \* bytes appended after the payload inside the ECH extension
     [] op = "wrongInfo"   -> [h EXCEPT !.ech.ct.info = "c1b"]                              \* sealed to the same key under other config bytes
-    [] op = "unlistedSuite" -> h      \* (see ApplyK: needs the client's key)
+    [] op \in {"unlistedSuite", "otherCid"} -> h      \* (see ApplyK: needs the client's key)
     \* -- reasons for non-acceptance (C05)
     [] op = "noEch"       -> [h EXCEPT !.exts = DropAt(x, IdxT(x, "ech")), !.ech = NoEch]
     [] op = "grease"      -> [h EXCEPT !.ech.cid = 99, !.ech.ct.ok = FALSE]
-    [] op = "no13"        -> [h EXCEPT !.exts = SetV(x, IdxT(x, "sv"), "12")]
-    [] op = "noSv"        -> [h EXCEPT !.exts = DropAt(x, IdxT(x, "sv"))]
+    \*    (the payload is sealed over the hello as sent: only the missing TLS 1.3 offer keeps it from being accepted)
+    [] op = "no13"        -> Reseal([h EXCEPT !.exts = SetV(x, IdxT(x, "sv"), "12")], p)
+    [] op = "noSv"        -> Reseal([h EXCEPT !.exts = DropAt(x, IdxT(x, "sv"))], p)
     \* -- illegal hellos (C04), outer level
     [] op = "eoeInOuter"  -> [h EXCEPT !.exts = x \o << E("eoe", "E") >>, !.eoe = << "ks" >>]
     [] op = "innerTypeInOuter" -> [h EXCEPT !.ech = InnerEch]
@@ -193,13 +195,16 @@ ApplyK(op, h, k) ==
   THEN LET s2 == CHOOSE x \in Suites : x \notin k.suites
            h1 == [h EXCEPT !.ech.suite = s2]
        IN [h1 EXCEPT !.ech.ct = [h.ech.ct EXCEPT !.suite = s2, !.aad = Aad(h1)]]
+  ELSE IF op = "otherCid"      \* sealed to the client's key, but naming the config id of another key (before sealing: the AAD is consistent)
+  THEN LET h1 == [h EXCEPT !.ech.cid = IF k.cid = 7 THEN 8 ELSE 7]
+       IN [h1 EXCEPT !.ech.ct = [h.ech.ct EXCEPT !.aad = Aad(h1)]]
   ELSE Apply(op, h)
 
 NeedsEoe == {"eoeOdd", "eoeBadLen", "eoeRepeated", "eoeMissing", "eoeRefsEch", "eoeRefsEoe", "eoeTwice"}
 NeedsEoe2 == {"eoeOutOfOrder"}
 NoEoeOps == {"eoeRefsSni"}
 Tampers == {"echTrailing", "swap1", "swapLast", "drop2", "addExt", "changeVal", "changeSid", "changeCid", "changeSuite", "otherEnc", "encToOther",
-            "truncEnc", "flipCt", "truncCt", "wrongInfo"}
+            "truncEnc", "flipCt", "truncCt", "wrongInfo", "otherCid"}
 PassOps == {"noEch", "grease", "no13", "noSv", "unlistedSuite"}
 \* the alert class each illegal hello must be answered with
 ClassOf(op) ==
@@ -268,7 +273,7 @@ StepCand ==
   /\ LET e == hello.ech IN
      IF ci > Len(Keys) THEN Pass /\ UNCHANGED <<ci, pt>>
      ELSE LET k == Keys[ci] IN
-       IF k.cid # e.cid \/ e.suite \notin k.suites THEN ci' = ci + 1 /\ UNCHANGED <<pc, res, pt>>
+       IF ~k.dec \/ k.cid # e.cid \/ e.suite \notin k.suites THEN ci' = ci + 1 /\ UNCHANGED <<pc, res, pt>>
        ELSE IF e.enc.to = "empty" THEN Abort("illegal_parameter") /\ UNCHANGED <<ci, pt>>
        ELSE IF ~OpenOK(k, hello) THEN ci' = ci + 1 /\ UNCHANGED <<pc, res, pt>>
        ELSE IF k.pub # Sni(hello) THEN Abort("illegal_parameter") /\ UNCHANGED <<ci, pt>>
@@ -318,8 +323,8 @@ Spec == Init /\ [][Next]_vars /\ WF_vars(Next)
 \* --------------------------------------------------------------- the properties
 Done == pc = "done"
 Target == KeyPool(ck)
-Holds == \E i \in DOMAIN Keys : Keys[i].kid = Target.kid /\ Keys[i].cfg = Target.cfg
-Authentic == \E i \in DOMAIN Keys : Keys[i].cid = hello.ech.cid /\ hello.ech.suite \in Keys[i].suites /\ OpenOK(Keys[i], hello)
+Holds == \E i \in DOMAIN Keys : Keys[i].dec /\ Keys[i].kid = Target.kid /\ Keys[i].cfg = Target.cfg
+Authentic == \E i \in DOMAIN Keys : Keys[i].dec /\ Keys[i].cid = hello.ech.cid /\ hello.ech.suite \in Keys[i].suites /\ OpenOK(Keys[i], hello)
 Committed == [sid |-> sid, exts |-> Expanded(InnerLayout(inm), OuterLayout(onm), run)]
 
 Req_C02 == Done /\ res.kind = "accept" => hello.ech.type = "outer" /\ Authentic
